@@ -29,7 +29,8 @@ IN_DOMAIN = {
             ('reduced_with_pygaps_release', 'four'), ('x_model_param_y', 'z'), ('my_sample_id', 'S1'), ('_pygaps_inside_pygaps_', 'v'), ('material_batch', 'b7'), ('adsorbate_purity', 'n5')],
     'xls': [('plain', 'hello'), ('unicode', 'Üñí-µm'), ('spaced', 'hello, world; "quoted"'), ('float', 5.5), ('negfloat', -2.25), ('intf', 5.0),
             ('bool', True), ('boolf', False), ('sci', 1.25e-12), ('text_int', '5'), ('text_true', 'true'), ('key with blank', 'v'),
-            ('posexp', 2.5e+17), ('negposexp', -6.71e+18)],
+            ('posexp', 2.5e+17), ('negposexp', -6.71e+18),
+            ('lead_blank', '  second run, indented'), ('trail_blank', 'leak suspected '), ('final_newline', 'a\nb\n'), ('tab_ends', '\tx\t'), ('only_blank', ' ')],
 }
 OUT_DOMAIN = {
     'csv': [('sep', 'a,b'), ('trailing_sep', 'degassed overnight,'), ('leading_sep', ',x'), ('only_sep', ','), ('two_trailing', 'a,,'), ('newline', 'a\nb'), ('text_int', '5'), ('text_true', 'true'), ('text_none', 'none'), ('empty', ''), ('list', [1, 2]),
